@@ -190,13 +190,38 @@ abcd           { return 4; }
 TABLEOPTS = [('Cem', ['ecs', 'meta-ecs']), ('Ce', ['ecs', 'nometa-ecs']), ('Cm', ['noecs', 'meta-ecs']), ('C', ['noecs', 'nometa-ecs']),
              ('Cf', ['full']), ('Cfe', ['full', 'ecs']), ('CF', ['fast']), ('CFe', ['fast', 'ecs']), ('CFae', ['fast', 'ecs', 'align']), ('Cema', ['ecs', 'meta-ecs', 'align'])]
 
-def language_variants(thorough=False):
+def scanl_probe(art):
+    """flex's own input language as a probe: the definitions, start conditions and all rule patterns of the scan.l under
+    analysis, with every action replaced by `return <rule number>` (the largest rule set at hand: ~275 rules, 27 start
+    conditions, caseless, trailing context; its compressed table without equivalence classes has more than 32767 entries)"""
+    import lex
+    sp = lex.parse_spec(art.source('scan.l'))
+    L = []
+    for n, d in sp.defs.items(): L.append('%s %s' % (n, d))
+    for sc in sp.sc_order[1:]: L.append(('%x ' if sc in sp.exclusive else '%s ') + sc)
+    L.append('%%')
+    k = 0
+    for r in sp.rules:
+        sc = ('<%s>' % ','.join(r.scs)) if r.scs else ''
+        if r.is_eof: L.append('%s<<EOF>> { return 0; }' % sc); continue
+        k += 1
+        L.append('%s%s  { return %d; }' % (sc, r.pat, k))
+    L.append('%%')
+    return ('%option caseless\n' if sp.caseless else '') + '\n'.join(L) + '\n', k
+
+def language_variants(thorough=False, art=None):
     out = []
-    for name, body in LANG.items():
+    probes = dict(LANG)
+    if art is not None:
+        body, nrules = scanl_probe(art)
+        if nrules < 250: raise RuntimeError('scan.l probe has only %d rules' % nrules)
+        probes['scanl'] = body
+    for name, body in probes.items():
         for tn, topts in TABLEOPTS:
             for rej in (False, True):
                 if rej and tn.startswith(('Cf', 'CF')): continue       # refused by flex
                 if rej and not thorough and tn not in ('Cem', 'C'): continue
+                if name == 'scanl' and (rej or (not thorough and tn not in ('Cem', 'C', 'Cf', 'CF', 'CFe'))): continue
                 opts = ['noyywrap', '8bit'] + topts + (['reject'] if rej else [])
                 spec = ''.join('%%option %s\n' % o for o in opts) + body.lstrip('\n')
                 out.append(variants.Variant('lang_%s_%s%s' % (name, tn, '_rej' if rej else ''), 'nr', (), opts, raw_spec=spec))
